@@ -5,6 +5,7 @@
   upstream   the 52 upstream code generation tests on the verification VM (their expectations come from the real emulator)
   svm        final observables of TLC (Sphinx.tla) == fast VM on the upstream corpus
   specmut    deliberately broken specs must be REJECTED by the model checks above (non-vacuity)
+  protocol   StackProtocol.tla: ap/fp discipline invariants follow from the lowering rules
   corrupt    a corrupted artifact (one opcode of the assembled code) must be rejected by Refine
 Usage: /venv/bin/python -m hv.selftest [names...]"""
 import json, os, sys, time
@@ -140,8 +141,30 @@ def corrupt():
                                                          'one_opcode_swapped': [b.result and b.result['cls'] for b in bad_items]}
 
 
-ALL = [('words', words), ('oracle', oracle), ('timetravel', timetravel), ('upstream', upstream_tests),
-       ('svm', svm_vs_tlc), ('specmut', specmut), ('corrupt', corrupt)]
+def hidsem_upstream():
+    """HiDSem agrees with the compiled upstream test programs, whose printed output the upstream assertions (run on
+    the shimmed VM above) pin to what the real emulator produced: an anchor for the source semantics itself."""
+    from . import families, rt
+    items = families.upstream_corpus(skip_tests=('stack_overflow', 'early_stack', 'uninitialized'))
+    items = rt.presize(items, 4000)
+    st = rt.Stats()
+    rt.run(items, st, max_level=14000, timeout=1500)
+    bad = [(it.meta['family'], it.result['cls']) for it in items if it.result and it.result['cls'] not in ('agree',)]
+    return st.cases > 30 and not bad, {'cases': st.cases, 'classes': dict(st.classes), 'not_agreeing': bad[:5], 'states': st.states}
+
+
+def protocol():
+    """spec/StackProtocol.tla: the SphinxRT monitors are consequences of the lowering rules (design-level model)"""
+    from . import tlc
+    r = tlc.run(common.SPEC, 'StackProtocol', timeout=1200, coverage=True)
+    acts = {k: v[1] for k, v in r.coverage.items() if k.startswith('A')}
+    never = [k for k, v in acts.items() if not v]
+    return r.ok and not never, {'states': r.distinct, 'transitions': r.generated, 'actions_taken': acts,
+                                'never_taken': never, 'wall_s': round(r.wall, 1), 'problems': (r.errors + r.violated)[:3]}
+
+
+ALL = [('protocol', protocol), ('words', words), ('oracle', oracle), ('timetravel', timetravel), ('upstream', upstream_tests),
+       ('svm', svm_vs_tlc), ('hidsem_upstream', hidsem_upstream), ('specmut', specmut), ('corrupt', corrupt)]
 
 
 def main():
